@@ -800,22 +800,29 @@ fn query(ii: &IndexedInstruments, op: &[String], lines: &mut Vec<String>) {
 
 fn run() {
     run_cases(|case, lines| {
-        let mut defs: Vec<Def> = vec![];
         let mut built: Option<IndexedInstruments> = None;
         for op in &case.ops {
             lines.push("@".into());
             match op[0].as_str() {
-                "def" => {
-                    assert!(op.len() == 8, "bad def");
-                    defs.push(Def {
-                        ex: op[1].parse().unwrap(),
-                        inst_internal: op[2].clone(),
-                        inst_name: op[3].clone(),
-                        base: (op[4].clone(), op[5].clone()),
-                        quote: (op[6].clone(), op[7].clone()),
-                    });
-                }
                 "build" => {
+                    // `build D <n> {7 tokens}* X ...`: only the definitions are read here; the
+                    // tables that follow are what the generator saw the builder produce and are
+                    // re-derived (and printed) from the real builder below
+                    assert!(op[1] == "D", "bad build");
+                    let n: usize = op[2].parse().unwrap();
+                    let defs: Vec<Def> = (0..n)
+                        .map(|j| {
+                            let t = &op[3 + 7 * j..10 + 7 * j];
+                            Def {
+                                ex: t[0].parse().unwrap(),
+                                inst_internal: t[1].clone(),
+                                inst_name: t[2].clone(),
+                                base: (t[3].clone(), t[4].clone()),
+                                quote: (t[5].clone(), t[6].clone()),
+                            }
+                        })
+                        .collect();
+                    assert!(op[3 + 7 * n] == "X", "bad build");
                     let ii = build(&defs);
                     lines.extend(table_lines(&ii));
                     built = Some(ii);
@@ -848,9 +855,15 @@ fn run() {
 
 // ------------------------------------------------------------------------------------ generator
 
-/// `build X n {key id}* A n {key ex name}* I n {key ex name}*` from the really built collection
-fn build_op(ii: &IndexedInstruments) -> String {
-    let mut t = vec!["build".to_string(), "X".into(), ii.exchanges().len().to_string()];
+/// `build D n {def}* X n {key id}* A n {key ex name}* I n {key ex name}*`: the definitions and the
+/// collection the real builder made of them (one op, so that shrinking keeps them together)
+fn build_op(defs: &[Def], ii: &IndexedInstruments) -> String {
+    let mut t = vec!["build".to_string(), "D".into(), defs.len().to_string()];
+    for d in defs {
+        t.push(def_op(d));
+    }
+    t.push("X".into());
+    t.push(ii.exchanges().len().to_string());
     for k in ii.exchanges() {
         t.push(k.key.0.to_string());
         t.push(label(k.value).to_string());
@@ -874,7 +887,7 @@ fn build_op(ii: &IndexedInstruments) -> String {
 
 fn def_op(d: &Def) -> String {
     format!(
-        "def {} {} {} {} {} {} {}",
+        "{} {} {} {} {} {} {}",
         d.ex, d.inst_internal, d.inst_name, d.base.0, d.base.1, d.quote.0, d.quote.1
     )
 }
@@ -1178,11 +1191,8 @@ fn random_defs(rng: &mut Rng) -> Vec<Def> {
 
 fn emit_case(out: &mut Out, id: String, defs: &[Def], body: impl FnOnce(&mut Out, &IndexedInstruments)) {
     out.case(id);
-    for d in defs {
-        out.line(def_op(d));
-    }
     let ii = build(defs);
-    out.line(build_op(&ii));
+    out.line(build_op(defs, &ii));
     body(out, &ii);
 }
 
